@@ -167,6 +167,7 @@ func checkC08(c *Ctx) {
 	ea := newErrAnalysis(c, l)
 	ea.runE5("ERR-E5-sticky")
 	checkMergeOrder(c)
+	checkIndexIterGuard(c)
 	checkTraversalTable(c)
 	checkFastIteratorDomain(c)
 }
@@ -802,4 +803,113 @@ func underFieldNil(st *ssa.Store, fa *ssa.FieldAddr, field string) bool {
 		}
 	}
 	return false
+}
+
+// checkIndexIterGuard (shared by C08, C07, C01): the fast index describes the
+// latest saved version only.  An iterator over it (plain or merged with the
+// uncommitted overlay) may therefore be handed out only when the tree is at
+// the latest version: every constructor call outside the constructors and the
+// index purge is on the true edge of IsFastCacheEnabled(), which in turn can
+// be true only under isLatestTreeVersion(), which compares the tree's version
+// with the latest version.
+func checkIndexIterGuard(c *Ctx) {
+	l := c.L
+	const R = "DOM-index-iter-guard"
+	c.rule(R, "index iterators are handed out only for a tree at the latest version", 5)
+	nfi, nufi := l.Func("", "NewFastIterator"), l.Func("", "NewUnsavedFastIterator")
+	enabled := l.Func("", "*ImmutableTree.IsFastCacheEnabled")
+	isLatest := l.Func("", "*ImmutableTree.isLatestTreeVersion")
+	glv := l.Func("", "*nodeDB.getLatestVersion")
+	purge := l.Func("", "*MutableTree.enableFastStorageAndCommitIfNotEnabled")
+	fVersion := l.Field("", "ImmutableTree", "version")
+	if nfi == nil || nufi == nil || enabled == nil || isLatest == nil || glv == nil || purge == nil || fVersion == nil {
+		c.anchorMissing(R, "NewFastIterator / NewUnsavedFastIterator / IsFastCacheEnabled / isLatestTreeVersion / getLatestVersion")
+		return
+	}
+	// guards on the #0 result of a call to f; pass = the edge on which it is true
+	guardsOn := func(fn *ssa.Function, f *ssa.Function) []guard {
+		return findGuards(fn, func(cond ssa.Value) (bool, int) {
+			pass := 0
+			v := stripTrivial(cond)
+			if u, ok := v.(*ssa.UnOp); ok && u.Op == token.NOT {
+				v, pass = stripTrivial(u.X), 1
+			}
+			if isResultOf(predStatic(f), 0)(v) {
+				return true, pass
+			}
+			return false, 0
+		})
+	}
+	for _, fn := range l.SrcFuncs {
+		if l.pkgPathOf(fn) != l.ModPath || fn == nufi || fn == nfi || fn == purge {
+			continue
+		}
+		gs := guardsOn(fn, enabled)
+		for _, in := range callsIn(fn, predStatic(nfi, nufi)) {
+			c.decide(R, l.fname(fn)+" hands out "+l.calleeName(in), l.ipos(in), guardsEffect(gs, in), "on the true edge of IsFastCacheEnabled()",
+				"an iterator over the fast index is created without the `tree is at the latest version` test: a tree loaded at an older version iterates the latest version's keys and values")
+		}
+	}
+	// true only under …
+	trueOnlyUnder := func(fn *ssa.Function, v ssa.Value, at *ssa.BasicBlock, gs []guard) bool {
+		under := func(b *ssa.BasicBlock) bool {
+			for _, g := range gs {
+				if edgeDominates(g.iff.Block(), g.pass, b) {
+					return true
+				}
+			}
+			return false
+		}
+		isFalse := func(x ssa.Value) bool {
+			k, ok := x.(*ssa.Const)
+			return ok && k.Value != nil && k.Value.String() == "false"
+		}
+		v = stripTrivial(v)
+		if isFalse(v) {
+			return true
+		}
+		if phi, ok := v.(*ssa.Phi); ok {
+			for i, e := range phi.Edges {
+				if isFalse(e) {
+					continue
+				}
+				if !under(phi.Block().Preds[i]) {
+					return false
+				}
+			}
+			return true
+		}
+		return under(at)
+	}
+	gs := guardsOn(enabled, isLatest)
+	okE := len(gs) > 0
+	for _, r := range returnsOf(enabled) {
+		if isRecoverReturn(r) {
+			continue
+		}
+		okE = okE && trueOnlyUnder(enabled, retVal(r, 0), r.Block(), gs)
+	}
+	c.decide(R, "IsFastCacheEnabled is true only under isLatestTreeVersion()", l.pos(enabled.Pos()), okE, "every possibly-true result is on the true edge of isLatestTreeVersion()", "IsFastCacheEnabled can be true for a tree that is not at the latest version")
+	okL, nL := true, 0
+	for _, r := range returnsOf(isLatest) {
+		if isRecoverReturn(r) {
+			continue
+		}
+		v := stripTrivial(retVal(r, 0))
+		if k, ok := v.(*ssa.Const); ok && k.Value != nil && k.Value.String() == "false" {
+			continue
+		}
+		nL++
+		bo, ok := v.(*ssa.BinOp)
+		if !ok || bo.Op != token.EQL {
+			okL = false
+			continue
+		}
+		x, y := stripTrivial(bo.X), stripTrivial(bo.Y)
+		isLV := isResultOf(predStatic(glv), 1)
+		if !(isLoadOfField(fVersion)(x) && isLV(y) || isLoadOfField(fVersion)(y) && isLV(x)) {
+			okL = false
+		}
+	}
+	c.decide(R, "isLatestTreeVersion compares the tree's version with the latest version", l.pos(isLatest.Pos()), okL && nL > 0, "t.version == latest", "isLatestTreeVersion is no longer `tree version == latest version`")
 }
